@@ -2,7 +2,7 @@
 # developer helper: run a check against a scratch worktree of /repo HEAD with a patch applied
 # usage: tools/trymut.sh <patch.diff> <PROP> [tier]
 set -e
-W=/tmp/mutwt
+W=${MUTWT:-/tmp/mutwt}
 if [ ! -d $W ]; then git -C /repo worktree add --detach $W HEAD >/dev/null 2>&1; fi
 git -C $W checkout -q --detach $(git -C /repo rev-parse HEAD) 2>/dev/null
 git -C $W checkout -- . ; git -C $W clean -fdq
